@@ -27,17 +27,17 @@ var g1Table = []handOff{
 	{"Server.serving", map[string][]string{"*": {"*"}}, "every access under Server.mu (checked by the lockset rule)"},
 	{"fsm.conn", map[string][]string{
 		"go fsm.read": {"fsm.read"},
-		"go fsm.run":  {"fsm.connect", "fsm.cleanupConnAndReader$1", "fsm.active", "fsm.cleanupConnAndReader", "fsm.established$2", "fsm.run", "fsm.sendKeepAlive", "fsm.sendNotification", "fsm.sendOpenAndSetHoldTimer"},
+		"go fsm.run":  {"fsm.connect", "fsm.cleanupConnAndReader", "fsm.active", "fsm.cleanupConnAndReader", "fsm.established", "fsm.run", "fsm.sendKeepAlive", "fsm.sendNotification", "fsm.sendOpenAndSetHoldTimer"},
 	}, "the reader is started (go) after the connection is stored and joined (<-readerDoneCh) before it is reset; checked: writers in root fsm.run are connect (no reader alive: every state that owns a reader joins it on exit, C09.6) and the deferred reset in cleanupConnAndReader (after the join)"},
-	{"fsm.closeReaderCh", map[string][]string{"go fsm.read": {"fsm.read"}, "go fsm.run": {"fsm.startReading", "fsm.cleanupConnAndReader", "fsm.cleanupConnAndReader$2"}}, "written in startReading before `go f.read()` (dominance checked)"},
+	{"fsm.closeReaderCh", map[string][]string{"go fsm.read": {"fsm.read"}, "go fsm.run": {"fsm.startReading", "fsm.cleanupConnAndReader", "fsm.cleanupConnAndReader"}}, "written in startReading before `go f.read()` (dominance checked)"},
 	{"fsm.readerDoneCh", map[string][]string{"go fsm.read": {"fsm.read"}, "go fsm.run": {"fsm.startReading", "fsm.cleanupConnAndReader"}}, "written in startReading before `go f.read()` (dominance checked)"},
-	{"fsm.readerErrCh", map[string][]string{"go fsm.read": {"fsm.read"}, "go fsm.run": {"fsm.startReading", "fsm.established$2", "fsm.openConfirm$1", "fsm.openSent$1"}}, "written in startReading before `go f.read()` (dominance checked)"},
-	{"fsm.readerMsgCh", map[string][]string{"go fsm.read": {"fsm.read"}, "go fsm.run": {"fsm.startReading", "fsm.established$2", "fsm.openConfirm$1", "fsm.openSent$1"}}, "written in startReading before `go f.read()` (dominance checked)"},
-	{"fsm.dialResultCh", map[string][]string{"go fsm.dialPeer$1": {"fsm.dialPeer$1"}, "go fsm.run": {"fsm.dialPeer", "fsm.cleanup", "fsm.connect"}}, "written in dialPeer before the go statement (dominance checked); the dial goroutine reads the field only in its first statement (deferred close argument), and the next dialPeer happens after its single result was received"},
-	{"fsm.holdTime", map[string][]string{"go fsm.established$1": {"fsm.established$1"}, "go fsm.run": {"fsm.openSent$1", "fsm.drainAndResetHoldTimer", "fsm.established$2", "fsm.openConfirm$1"}}, "written only in openSent; the keepalive manager lives inside established(): spawned there and joined before established() returns (G4)"},
-	{"fsm.keepAliveInterval", map[string][]string{"go fsm.established$1": {"fsm.established$1"}, "go fsm.run": {"fsm.openSent$1", "fsm.openConfirm$1"}}, "as fsm.holdTime"},
-	{"fsm.keepAliveTimer", map[string][]string{"go fsm.established$1": {"fsm.established$1"}, "go fsm.run": {"fsm.openSent$1", "fsm.cleanup", "fsm.established", "fsm.established$2", "fsm.openConfirm", "fsm.openConfirm$1"}}, "as fsm.holdTime; time.Timer methods are safe for concurrent use"},
-	{"fsm.remoteID", map[string][]string{"go fsm.run": {"fsm.openSent$1"}, "go peer.run": {"peer.handleStateTransition"}}, "written before the OpenConfirm transition request is sent on transitionCh; read by the peer manager after receiving it (channel happens-before)"},
+	{"fsm.readerErrCh", map[string][]string{"go fsm.read": {"fsm.read"}, "go fsm.run": {"fsm.startReading", "fsm.established", "fsm.openConfirm", "fsm.openSent"}}, "written in startReading before `go f.read()` (dominance checked)"},
+	{"fsm.readerMsgCh", map[string][]string{"go fsm.read": {"fsm.read"}, "go fsm.run": {"fsm.startReading", "fsm.established", "fsm.openConfirm", "fsm.openSent"}}, "written in startReading before `go f.read()` (dominance checked)"},
+	{"fsm.dialResultCh", map[string][]string{"go@fsm.dialPeer": {"fsm.dialPeer"}, "go fsm.run": {"fsm.dialPeer", "fsm.cleanup", "fsm.connect"}}, "written in dialPeer before the go statement (dominance checked); the dial goroutine reads the field only in its first statement (deferred close argument), and the next dialPeer happens after its single result was received"},
+	{"fsm.holdTime", map[string][]string{"go@fsm.established": {"fsm.established"}, "go fsm.run": {"fsm.openSent", "fsm.drainAndResetHoldTimer", "fsm.established", "fsm.openConfirm"}}, "written only in openSent; the keepalive manager lives inside established(): spawned there and joined before established() returns (G4)"},
+	{"fsm.keepAliveInterval", map[string][]string{"go@fsm.established": {"fsm.established"}, "go fsm.run": {"fsm.openSent", "fsm.openConfirm"}}, "as fsm.holdTime"},
+	{"fsm.keepAliveTimer", map[string][]string{"go@fsm.established": {"fsm.established"}, "go fsm.run": {"fsm.openSent", "fsm.cleanup", "fsm.established", "fsm.established", "fsm.openConfirm", "fsm.openConfirm"}}, "as fsm.holdTime; time.Timer methods are safe for concurrent use"},
+	{"fsm.remoteID", map[string][]string{"go fsm.run": {"fsm.openSent"}, "go peer.run": {"peer.handleStateTransition"}}, "written before the OpenConfirm transition request is sent on transitionCh; read by the peer manager after receiving it (channel happens-before)"},
 	{"peer.fsms", map[string][]string{"API": {"peer.enableFSM"}, "go peer.run": {"*"}}, "API-root access only via peer.start -> enableFSM before `go p.run()` (dominance checked)"},
 	{"peer.fsmState", map[string][]string{"API": {"peer.enableFSM", "newPeer"}, "go peer.run": {"*"}}, "as peer.fsms"},
 	{"peer.startupDelayTimer", map[string][]string{"API": {"newPeer"}, "go peer.run": {"*"}}, "constructor, then peer manager only"},
@@ -51,9 +51,9 @@ var g1MessageWriters = map[string][]string{
 	"notificationError":       {"newNotificationError"},
 	"openMessage":             {"openMessage.decode", "newOpenMessage"},
 	"capabilityOptionalParam": {"capabilityOptionalParam.decode", "newOpenMessage"},
-	"dialResult":              {"fsm.dialPeer$1"},
+	"dialResult":              {"fsm.dialPeer"},
 	"stateTransition":         {"newStateTransition"},
-	"peerOptions":             {"defaultPeerOptions", "WithPassive$1", "WithIdleHoldTime$1", "WithConnectRetryTime$1", "WithPort$1", "WithDialerControl$1", "WithLocalAddress$1", "WithHoldTime$1"},
+	"peerOptions":             {"defaultPeerOptions", "WithPassive", "WithIdleHoldTime", "WithConnectRetryTime", "WithPort", "WithDialerControl", "WithLocalAddress", "WithHoldTime"},
 }
 
 // isFreshWrite reports whether the access writes into an object allocated in
@@ -226,7 +226,7 @@ func (c *Check) checkOwnership(rule string) {
 			bad := ""
 			var badAcc Access
 			for _, ra := range as {
-				if ra.a.Write && !allowed[p.Name(ra.a.Fn)] {
+				if ra.a.Write && !allowed[p.ownerName(ra.a.Fn)] {
 					bad = p.Name(ra.a.Fn)
 					badAcc = ra.a
 				}
@@ -266,7 +266,7 @@ func (c *Check) checkOwnership(rule string) {
 			okf := false
 			if ok {
 				for _, f := range al {
-					if f == "*" || f == p.Name(ra.a.Fn) {
+					if f == "*" || f == p.ownerName(ra.a.Fn) {
 						okf = true
 					}
 				}
@@ -286,7 +286,7 @@ func (c *Check) checkOwnership(rule string) {
 	// premises: stores that must precede the go statement in the same function
 	for _, pr := range []struct{ fn, goTarget string }{
 		{"fsm.startReading", "fsm.read"},
-		{"fsm.dialPeer", "fsm.dialPeer$1"},
+		{"fsm.dialPeer", "the dial goroutine"},
 		{"peer.start", "peer.run"},
 	} {
 		fn := p.Fn(pr.fn)
@@ -296,9 +296,7 @@ func (c *Check) checkOwnership(rule string) {
 		var g *ssa.Go
 		allInstrs(fn, func(in ssa.Instruction) {
 			if x, ok := in.(*ssa.Go); ok {
-				if t := p.staticLocalCallee(x); t != nil && strings.HasPrefix(p.Name(t), pr.goTarget) {
-					g = x
-				}
+				g = x // each of these functions has exactly one go statement (spawn inventory)
 			}
 		})
 		if g == nil {
@@ -329,7 +327,7 @@ func (c *Check) checkOwnership(rule string) {
 		for _, fn := range p.FuncSeq {
 			for _, cl := range p.callsIn(fn, descIs("invoke:PeerOption.apply")) {
 				callers++
-				c.require(fn == ap, rule, p.Name(fn), "PeerOption.apply call", p.InstrPos(cl.(ssa.Instruction)), "options are applied only to AddPeer's local peerOptions before newPeer copies them")
+				c.require(p.ownerTop(cl.(ssa.Instruction).Parent()) == ap, rule, p.Name(fn), "PeerOption.apply call", p.InstrPos(cl.(ssa.Instruction)), "options are applied only to AddPeer's local peerOptions before newPeer copies them")
 			}
 		}
 		c.floor(rule, callers, 1, "PeerOption.apply call sites")
@@ -403,35 +401,17 @@ func (c *Check) checkSpawnJoin(rule string) {
 			return ok1 && ok2 && closesOn(s.Target, "dialResultCh"), "connect and cleanup receive from dialResultCh; the goroutine closes it on exit"
 		}},
 		{"fsm.established", "fsm.established$1", "established() receives the manager's done channel before it returns", func(s Spawn) (bool, string) {
-			// the done channel is a local: closed by the goroutine's defer and
-			// received in established on every path to return
-			est := s.In
-			var done ssa.Value
-			allInstrs(s.Target, func(in ssa.Instruction) {
-				if d, ok := in.(*ssa.Defer); ok && p.calleeDesc(d) == "builtin:close" {
-					arg := d.Call.Args[0]
-					if u, ok := arg.(*ssa.UnOp); ok {
-						arg = u.X
-					}
-					if fv, ok := arg.(*ssa.FreeVar); ok {
-						// map free var to binding
-						if mc, ok := s.Instr.Call.Value.(*ssa.MakeClosure); ok {
-							for i, f := range s.Target.FreeVars {
-								if f == fv {
-									done = mc.Bindings[i]
-								}
-							}
-						}
-					}
-				}
-			})
-			if done == nil {
-				return false, "manager goroutine does not close a done channel in a defer"
+			// the done channel is created in established (a local): closed by
+			// the goroutine's defer and received in established on every path
+			// to return
+			if !closesOn(s.Target, "established:done") {
+				return false, "manager goroutine does not close its done channel in a defer"
 			}
+			est := p.ownerTop(s.In)
 			pd := newPostDom(est)
 			joined := false
 			allInstrs(est, func(in ssa.Instruction) {
-				if u, ok := in.(*ssa.UnOp); ok && u.Op.String() == "<-" && sameChanValue(u.X, done) && pd.onEveryReturnPath(u) {
+				if u, ok := in.(*ssa.UnOp); ok && u.Op.String() == "<-" && chanFieldName(u.X) == "established:done" && pd.onEveryReturnPath(u) {
 					joined = true
 				}
 			})
@@ -439,15 +419,7 @@ func (c *Check) checkSpawnJoin(rule string) {
 		}},
 		{"peer.start", "peer.run", "peer.stop receives doneCh, closed by run's defer after disabling both FSMs", func(s Spawn) (bool, string) {
 			ok1, d := recvOn("peer.stop", "doneCh")
-			ok2 := false
-			for _, f := range withAnon(s.Target) {
-				for _, cl := range p.callsIn(f, descIs("builtin:close")) {
-					if chanFieldName(cl.Common().Args[0]) == "doneCh" {
-						ok2 = true
-					}
-				}
-			}
-			return ok1 && ok2, d
+			return ok1 && closesOn(s.Target, "doneCh"), d
 		}},
 		{"Server.Serve", "Server.Serve$", "listener goroutines: WaitGroup.Add before go, Done deferred, Wait in closeListeners", func(s Spawn) (bool, string) {
 			done := len(p.callsDeep(s.Target, descIs("sync.WaitGroup.Done"))) > 0
@@ -470,7 +442,7 @@ func (c *Check) checkSpawnJoin(rule string) {
 		}
 		found := false
 		for i, sc := range specs {
-			if p.Name(s.In) == sc.in && (tn == sc.target || (strings.HasSuffix(sc.target, "$") && strings.HasPrefix(tn, sc.target))) {
+			if p.ownerName(s.In) == sc.in {
 				found = true
 				matched[i] = true
 				ok, d := sc.check(s)
@@ -478,7 +450,8 @@ func (c *Check) checkSpawnJoin(rule string) {
 			}
 		}
 		if !found {
-			c.fail(rule, p.Name(s.In), "go "+tn, p.InstrPos(s.Instr), "goroutine spawn that is not in the confirmed inventory: no completion signal / join is known for it, so shutdown cannot wait for it")
+			_ = tn
+			c.fail(rule, p.Name(s.In), "go statement in "+p.ownerName(s.In), p.InstrPos(s.Instr), "goroutine spawn that is not in the confirmed inventory: no completion signal / join is known for it, so shutdown cannot wait for it")
 		}
 	}
 	for i, sc := range specs {
@@ -490,6 +463,12 @@ func (c *Check) checkSpawnJoin(rule string) {
 
 // chanFieldName names the struct field a channel value was loaded from.
 func chanFieldName(v ssa.Value) string {
+	// a channel is named by its creation site wherever that is known
+	if curProg != nil && v != nil && isChanType(v.Type()) {
+		if k := curProg.chanKey(v); k != "" {
+			return k
+		}
+	}
 	switch x := v.(type) {
 	case *ssa.UnOp:
 		switch y := x.X.(type) {
@@ -505,6 +484,14 @@ func chanFieldName(v ssa.Value) string {
 	case *ssa.FreeVar:
 		return x.Name()
 	case *ssa.Parameter:
+		// a helper's parameter stands for the argument at its call site
+		if curProg != nil {
+			if o := curProg.origin(x); o != ssa.Value(x) {
+				if n := chanFieldName(o); n != "" {
+					return n
+				}
+			}
+		}
 		return x.Name()
 	}
 	return ""
